@@ -88,7 +88,7 @@ func init() {
 			for _, so := range []string{"loam12", "sand20", "silt5st"} {
 				n := float64(soilN(so))
 				lv := []float64{1, 3, n / 2, n/2 + 0.5, 25}
-				for _, route := range []string{"table", "explicit", "ptf"} {
+				for _, route := range []string{"table", "explicit", "ptf", "mixed-et", "mixed-te"} {
 					for _, first := range lv {
 						out = append(out, c15Spec{Kind: "gw", Soil: so, Route: route, First: first, Levels: lv, D: d})
 					}
@@ -280,6 +280,14 @@ func c15RouteSoil(soil, route string) ([]proj.Horizon, int) {
 		case "ptf":
 			hor[i].Sand, hor[i].Silt, hor[i].Clay, hor[i].PS = 40-5*i, 35, 25+5*i, 55
 			ptf = 2
+		case "mixed-et": // explicit values in the top horizon (far from the table's), table values below
+			if i == 0 {
+				hor[i].FC, hor[i].WP, hor[i].PS = 18, 7, 40
+			}
+		case "mixed-te": // table values in the top horizon, explicit values in the last one
+			if i == len(hor)-1 && i > 0 {
+				hor[i].FC, hor[i].WP, hor[i].PS = 26, 15, 41
+			}
 		}
 	}
 	return hor, ptf
